@@ -318,6 +318,16 @@ PROXY_ASSUME = ["target I/O failure kinds are abstracted to three probe outcomes
                 "hooks sit between atomic regions of the code (never inside a critical section)"]
 
 
+class C02CtlProj(ControlProjector):
+    """sequential histories: a request the model forwards must not be answered by a proxy error"""
+    def step(self, kind, op, a, b):
+        self.track(kind, op, a, b)
+        if kind == 'req' and b.startswith('req fwd'):
+            pa = 'fwd' if a.startswith('req fwd') else a
+            return pa, 'fwd', True
+        return None
+
+
 def control(projector, n_quick=160, n_thorough=6000):
     return dict(engine='control', n_quick=n_quick, n_thorough=n_thorough, projector=projector)
 
@@ -336,7 +346,7 @@ PROPS = {
     'C01': dict(engines=[proxy(C01Proj)], assumptions=PROXY_ASSUME,
                 rule=RULE_PROXY + "Compared for C01: deploy results and which deploy generation's targets receive client requests. "
                      "Non-trivial = a deploy fails its health wait, or a request reaches a target."),
-    'C02': dict(engines=[proxy(C02Proj)], assumptions=PROXY_ASSUME,
+    'C02': dict(engines=[proxy(C02Proj), control(C02CtlProj, 120, 4000)], assumptions=PROXY_ASSUME,
                 rule=RULE_PROXY + "Compared for C02: the status every request ends with and the generation that served it. Non-trivial = a request completes."),
     'C03': dict(engines=[proxy(C03Proj)], assumptions=PROXY_ASSUME,
                 rule=RULE_PROXY + "Compared for C03: virtual time and result of every command return, 504 cut-offs, which generation receives requests. "
